@@ -194,11 +194,17 @@ def run_other_pair(sc, tier, res):
     for lim in lims:
         for stp in stps:
             for others in itertools.chain(itertools.product((SAME_BASE, SAME_QUOTE), other_shapes),):
-                for n_other in (1, 2):
+                # n_other = 0 with mid: the order is accepted at an instant strictly INSIDE the period of the next bar of its
+                # own pair (a job scheduled at noon, the handler of a finer-grained feed of another pair): that bar is still
+                # "the next bar of its pair"
+                for n_other, mid in ((1, False), (2, False), (0, True), (1, True)):
+                    if n_other == 0 and others != (SAME_BASE, other_shapes[0]):
+                        continue
                     for own in own_shapes:
                         case = dict(kind="other-pair", order=kind, side=side, limit=None if lim is None else str(lim),
                                     stop=None if stp is None else str(stp), other_pair=str(others[0]),
-                                    other_bar=list(map(str, others[1])), n_other=n_other, own_bar=list(map(str, own)))
+                                    other_bar=list(map(str, others[1])), n_other=n_other, own_bar=list(map(str, own)),
+                                    accepted_mid_bar=mid)
                         bad = []
                         try:
                             d = bs.backtesting_dispatcher()
@@ -216,6 +222,8 @@ def run_other_pair(sc, tier, res):
                             flat = (D(100), D(100), D(100), D(100))
                             call(e._on_bar_event(bs.BarEvent(T(t), bs.Bar(T(t - 1), OWN, *flat, D(1000)))))
                             op = SIDE[side]
+                            if mid:
+                                d._set_now(T(1) + (T(2) - T(1)) / 2)
                             if kind == "mkt":
                                 oid = call(e.create_market_order(op, OWN, D(1))).id
                             elif kind == "lim":
@@ -228,6 +236,7 @@ def run_other_pair(sc, tier, res):
                             for k in range(n_other):
                                 t += 1
                                 d._set_now(T(t))
+                                # with mid, the other pair's bars are hourly-like: they END before the own pair's bar does
                                 call(e._on_bar_event(bs.BarEvent(T(t), bs.Bar(T(t - 1), others[0], *others[1], D(1000)))))
                                 now = info_tuple(call(e.get_order_info(oid)))
                                 if now != before:
@@ -238,7 +247,8 @@ def run_other_pair(sc, tier, res):
                                 t += 1
                                 d._set_now(T(t))
                                 o, h, lo, c = own
-                                call(e._on_bar_event(bs.BarEvent(T(t), bs.Bar(T(t - 1), OWN, o, h, lo, c, D(1000)))))
+                                begin = T(1) if mid else T(t - 1)
+                                call(e._on_bar_event(bs.BarEvent(T(t), bs.Bar(begin, OWN, o, h, lo, c, D(1000)))))
                                 info = call(e.get_order_info(oid))
                                 filled = info.amount_filled == D(1)
                                 if kind == "mkt" and not filled:
@@ -479,6 +489,7 @@ def replay(rep):
         res = Result()
         run_other_pair(("other-pair", rep["order"], rep["side"]), "quick", res)
         want = {k: rep[k] for k in ("limit", "stop", "other_pair", "other_bar", "n_other", "own_bar")}
+        want["accepted_mid_bar"] = rep.get("accepted_mid_bar", False)
         return [v["message"] for v in res.violations if all(v["replay"].get(k) == x for k, x in want.items())][:3]
     if rep.get("kind") == "long":
         res = Result()
